@@ -3,7 +3,7 @@
 // UNINTERPRETED function, so everything proved holds for every hasher (Poseidon included).
 // `hash` is only ever called with two elements by the tree code; that is a proof obligation here.
 pub trait Hasher {
-    type Fr: Copy;
+    type Fr: Copy + PartialEq;
     spec fn spec_default_leaf() -> Self::Fr;
     spec fn spec_hash2(a: Self::Fr, b: Self::Fr) -> Self::Fr;
     fn default_leaf() -> (r: Self::Fr)
@@ -61,4 +61,80 @@ pub open spec fn path_index(path: Seq<(u8)>) -> nat
     decreases path.len()
 {
     if path.len() == 0 { 0 } else { (path[0] as nat) + 2 * path_index(path.subrange(1, path.len() as int)) }
+}
+
+// ASSUMED(model): the node type's `==` is structural equality (true for ark-ff's Fp: derived Eq on the canonical limbs)
+#[verifier::external_body]
+pub proof fn axiom_fr_eq<H: Hasher>()
+    ensures <H::Fr as vstd::std_specs::cmp::PartialEqSpec>::obeys_eq_spec(),
+            forall|a: H::Fr, b: H::Fr| #[trigger] a.eq_spec(&b) == (a == b),
+{}
+
+// ---- C07 lemmas over the ideal tree (pure spec level; they do not depend on any implementation) ----
+pub proof fn lemma_ideal_path_len<H: Hasher>(leaves: Seq<H::Fr>, depth: nat, i: nat)
+    ensures ideal_path::<H>(leaves, depth, i).len() == depth
+{}
+
+// completeness: folding the stored leaf along its ideal path gives the ideal root
+pub proof fn lemma_fold_ideal<H: Hasher>(leaves: Seq<H::Fr>, depth: nat, i: nat, k: nat)
+    requires i < pow2(depth), k <= depth
+    ensures fold_path::<H>(ideal_node::<H>(leaves, depth, (depth - k) as nat, i / pow2(k)),
+                           ideal_path::<H>(leaves, depth, i).subrange(k as int, depth as int)) == ideal_root::<H>(leaves, depth)
+    decreases depth - k
+{
+    let full = ideal_path::<H>(leaves, depth, i);
+    let p = full.subrange(k as int, depth as int);
+    let j = i / pow2(k);
+    lemma_pow2_pos(k);
+    if k == depth {
+        vstd::arithmetic::div_mod::lemma_basic_div(i as int, pow2(depth) as int);
+        assert(p.len() == 0);
+    } else {
+        lemma_pow2_unfold(k + 1);
+        vstd::arithmetic::div_mod::lemma_div_denominator(i as int, pow2(k) as int, 2);
+        assert(pow2(k) * 2 == pow2(k + 1));
+        assert(j / 2 == i / pow2(k + 1));
+        assert(p[0] == full[k as int]);
+        let acc = ideal_node::<H>(leaves, depth, (depth - k) as nat, j);
+        let sib = if j % 2 == 0 { j + 1 } else { (j - 1) as nat };
+        let sibnode = ideal_node::<H>(leaves, depth, (depth - k) as nat, sib);
+        let nxt = if j % 2 == 0 { H::spec_hash2(acc, sibnode) } else { H::spec_hash2(sibnode, acc) };
+        // parent node unfolds to the hash of its two children
+        assert(ideal_node::<H>(leaves, depth, (depth - k - 1) as nat, j / 2) == nxt) by {
+            assert(2 * (j / 2) == (if j % 2 == 0 { j } else { (j - 1) as nat }));
+            assert(((depth - k - 1) as nat) + 1 == (depth - k) as nat);
+        }
+        assert(p.subrange(1, p.len() as int) =~= full.subrange((k + 1) as int, depth as int));
+        lemma_fold_ideal::<H>(leaves, depth, i, k + 1);
+    }
+}
+
+// the direction bits of the ideal path decode (least significant first) to the position
+pub proof fn lemma_path_index_ideal<H: Hasher>(leaves: Seq<H::Fr>, depth: nat, i: nat, k: nat)
+    requires i < pow2(depth), k <= depth
+    ensures path_index(Seq::new((depth - k) as nat, |m: int| ideal_path::<H>(leaves, depth, i)[m + k].1)) == i / pow2(k)
+    decreases depth - k
+{
+    let bits = Seq::new((depth - k) as nat, |m: int| ideal_path::<H>(leaves, depth, i)[m + k].1);
+    lemma_pow2_pos(k);
+    if k == depth {
+        vstd::arithmetic::div_mod::lemma_basic_div(i as int, pow2(depth) as int);
+        assert(bits.len() == 0);
+    } else {
+        lemma_pow2_unfold(k + 1);
+        vstd::arithmetic::div_mod::lemma_div_denominator(i as int, pow2(k) as int, 2);
+        assert(pow2(k) * 2 == pow2(k + 1));
+        let rest = Seq::new((depth - k - 1) as nat, |m: int| ideal_path::<H>(leaves, depth, i)[m + k + 1].1);
+        assert(bits.subrange(1, bits.len() as int) =~= rest);
+        lemma_path_index_ideal::<H>(leaves, depth, i, k + 1);
+        let rest2 = Seq::new((depth - (k + 1)) as nat, |m: int| ideal_path::<H>(leaves, depth, i)[m + (k + 1)].1);
+        assert(rest =~= rest2);
+        assert(path_index(rest2) == i / pow2(k + 1));
+        let j = i / pow2(k);
+        assert(bits[0] == (j % 2) as u8);
+        assert(j / 2 == i / pow2(k + 1));
+        assert(bits.len() > 0);
+        assert(path_index(bits) == (bits[0] as nat) + 2 * path_index(bits.subrange(1, bits.len() as int)));
+        assert(j == (j % 2) + 2 * (j / 2));
+    }
 }
